@@ -230,26 +230,54 @@ def refractive(prog, chk):
                 def step(var):
                     a, b = ev.args[var]
                     return noerr(b - a), a
+
+                def acc_named(expected, fallback):
+                    """the variable that accumulates `expected` per iteration (whatever it is called); otherwise the only variable, other
+                    than the counter, that the iteration changes"""
+                    changed = []
+                    for k_, (a_, b_) in ev.args.items():
+                        if b_ is None or a_ is None or k_ == i:
+                            continue
+                        try:
+                            dlt = noerr(b_ - a_)
+                        except Exception:
+                            continue
+                        if dlt.is_zero() or dlt.equals(Rat.const(1)):
+                            continue
+                        if dlt.equals(expected):
+                            return k_
+                        changed.append(k_)
+                    if fallback in ev.args:
+                        return fallback
+                    return changed[0] if len(changed) == 1 else fallback
                 inst = '%s %s' % (br, 'density-fallback' if dval.canon() != dens else 'given-density')
                 if name == 'Refractive_Index_Re':
-                    d, a = step('rv')
+                    accn = acc_named(d_re, 'rv')
+                    if accn not in ev.args:
+                        chk.bad('refractive-formula', U, name, inst + ' step', loc, 'no accumulator found in the element loop')
+                        continue
+                    d, a = step(accn)
                     ok = d.equals(d_re)
                     chk.decide(ok, 'refractive-formula', U, name, inst + ' step', loc,
                                'real-part accumulation must add w_i*KD*(Z_i + Fi(Z_i,E))/A_i/E^2; found %s' % d.canon()[:300],
                                why='delta += w*KD*(Z+f\')/A/E^2')
                     # final: 1 - acc*density
                     fin = p.ret
-                    accsym = [s for s in fin.n.symbols() if s.startswith('rv@L')]
+                    accsym = [s for s in fin.n.symbols() if s.startswith(accn + '@L')]
                     okf = len(accsym) == 1 and fin.equals(Rat.const(1) - Rat.sym(accsym[0]) * dval)
                     chk.decide(okf, 'refractive-formula', U, name, inst + ' result', loc,
                                'result must be 1 - delta*density; found %s' % fin.canon()[:200], why='1 - delta*rho')
                     res.setdefault('re', set()).add('1-acc*rho')
                 elif name == 'Refractive_Index_Im':
-                    d, a = step('rv')
+                    accn = acc_named(d_im, 'rv')
+                    if accn not in ev.args:
+                        chk.bad('refractive-formula', U, name, inst + ' step', loc, 'no accumulator found in the element loop')
+                        continue
+                    d, a = step(accn)
                     chk.decide(d.equals(d_im), 'refractive-formula', U, name, inst + ' step', loc,
                                'imaginary-part accumulation must add CS_Total(Z_i,E)*w_i; found %s' % d.canon()[:300], why='mu += CS_Total*w')
                     fin = p.ret
-                    accsym = [s for s in fin.n.symbols() if s.startswith('rv@L')]
+                    accsym = [s for s in fin.n.symbols() if s.startswith(accn + '@L')]
                     okf = False
                     if len(accsym) == 1:
                         c = const_factor(fin)
@@ -259,8 +287,12 @@ def refractive(prog, chk):
                     chk.decide(okf, 'refractive-formula', U, name, inst + ' result', loc,
                                'result must be mu*density*c/E with a constant c; found %s' % fin.canon()[:200], why='mu*rho*c/E')
                 else:
-                    d1, _ = step('delta')
-                    d2, _ = step('im')
+                    an_re, an_im = acc_named(d_re, 'delta'), acc_named(d_im, 'im')
+                    if an_re not in ev.args or an_im not in ev.args:
+                        chk.bad('refractive-formula', U, name, inst + ' step-re', loc, 'the two accumulators of the element loop were not found')
+                        continue
+                    d1, _ = step(an_re)
+                    d2, _ = step(an_im)
                     chk.decide(d1.equals(d_re), 'refractive-formula', U, name, inst + ' step-re', loc,
                                'real-part accumulation must add w_i*KD*(Z_i + Fi(Z_i,E))/A_i/E^2; found %s' % d1.canon()[:300],
                                why='same step as Refractive_Index_Re')
@@ -271,10 +303,10 @@ def refractive(prog, chk):
                     im_ = p.mem.get('rv.im')
                     okre = okim = False
                     if re_ is not None:
-                        accsym = [s for s in re_.n.symbols() if s.startswith('delta@L')]
+                        accsym = [s for s in re_.n.symbols() if s.startswith(an_re + '@L')]
                         okre = len(accsym) == 1 and re_.equals(Rat.const(1) - Rat.sym(accsym[0]) * dval)
                     if im_ is not None:
-                        accsym = [s for s in im_.n.symbols() if s.startswith('im@L')]
+                        accsym = [s for s in im_.n.symbols() if s.startswith(an_im + '@L')]
                         if len(accsym) == 1:
                             c = const_factor(im_)
                             okim = c is not None and im_.equals(Rat.const(c) * Rat.sym(accsym[0]) * dval / E)
